@@ -9,6 +9,7 @@ import (
 	"strings"
 	"time"
 
+	"github.com/bitcoin-sv/block-headers-service/database"
 	"github.com/bitcoin-sv/block-headers-service/verifharness/gen"
 	"github.com/bitcoin-sv/block-headers-service/verifharness/refmodel"
 	"github.com/bitcoin-sv/block-headers-service/verifharness/rig"
@@ -76,6 +77,54 @@ func buildExact(rng *rand.Rand, L int) gen.History {
 
 var boundaryLengths = []int{1, 2, 3, 499, 500, 501, 502, 999, 1000, 1001, 1499, 1500, 1501, 1600}
 
+// leftoverDump returns the intermediate dump a failed export leaves behind: a store of 1800 longest-chain headers is
+// exported (once per process) to a target inside a directory that does not exist; ExportHeaders fails after writing
+// $TMPDIR/headers.csv. nil if that export did not fail or left nothing.
+func (e *env) leftoverDump() []byte {
+	if e.leftoverDone {
+		return e.leftover
+	}
+	e.leftoverDone = true
+	removeDB(filepath.Join(e.work, "P.db"))
+	st, err := rig.New(rig.Options{Dir: e.work, Name: "P.db", NoHTTP: true})
+	if err != nil {
+		return nil
+	}
+	defer st.Destroy()
+	rng := rand.New(rand.NewSource(17))
+	prev := rig.Genesis().HashOf()
+	for i := 0; i < 1800; i++ {
+		h := refmodel.Hdr{Prev: prev, Bits: gen.BitsNormal}
+		gen.Fields(rng, &h, false, i+1)
+		if res := st.Add(h); res.Err != nil || res.Panic != nil {
+			return nil
+		}
+		prev = h.HashOf()
+	}
+	st.Close()
+	cfg := rig.NewConfig(st.Path)
+	cfg.Db.PreparedDbFilePath = filepath.Join("no-such-directory", "export.csv.gz")
+	dump := filepath.Join(e.work, "headers.csv")
+	_ = os.Remove(dump)
+	var failed bool
+	func() {
+		defer func() {
+			if recover() != nil {
+				failed = false
+			}
+		}()
+		failed = database.ExportHeaders(cfg, &e.log) != nil
+	}()
+	if failed {
+		e.leftover, _ = os.ReadFile(dump)
+	}
+	_ = os.Remove(dump)
+	if len(e.leftover) == 0 {
+		e.leftover = nil
+	}
+	return e.leftover
+}
+
 func (e *env) roundTrip(caseID string, idx int) {
 	r := e.r
 	rng := r.Rand(caseID)
@@ -111,6 +160,15 @@ func (e *env) roundTrip(caseID string, idx int) {
 			Classes:      []string{"M", "MH", "MHL", "MMMMHLZ", "MHLZNTUX", "MMMMHLR"}[rng.Intn(6)],
 			FieldExtreme: true,
 		})
+	}
+	if idx%3 == 1 {
+		// an earlier export of a longer chain failed after writing its intermediate dump (unwritable target): the dump is
+		// still lying in $TMPDIR when this export starts
+		if lo := e.leftoverDump(); lo != nil {
+			if err := os.WriteFile(filepath.Join(e.work, "headers.csv"), lo, 0o644); err == nil {
+				r.Count("exports_started_with_a_leftover_dump_of_a_failed_export", 1)
+			}
+		}
 	}
 	s := e.buildStore(caseID, hist, "A.db", "rt.csv.gz")
 	if s == nil {
